@@ -12,6 +12,7 @@ import (
 func extractAll(repo string, o *out) {
 	extractToxics(repo, o)
 	extractLink(repo, o)
+	extractOps(repo, o)
 	extractAPI(repo, o)
 	extractClient(repo, o)
 	extractProxy(repo, o)
